@@ -51,6 +51,15 @@ def gen_table(ctx):
         ts = [sorted(r[c] for r in tv)[reps // 2] for c in range(n)]
     else:
         ts = [ctx.rng.randint(0, hi + 1) for _ in range(n)]
+    if ctx.rng.random() < 0.02:
+        # very many partial tests, observed row extreme in all of them: Fisher's product of p-values underflows to 0
+        n, reps = ctx.rng.choice([(220, 30), (220, 40), (330, 9), (330, 14), (330, 20)])
+        tv = [[ctx.rng.randint(0, 1000) for _ in range(n)] for _ in range(reps)]
+        ts = [1001 + ctx.rng.randint(0, 1) for _ in range(n)]
+        if ctx.rng.random() < 0.5:
+            for c in ctx.rng.sample(range(n), 3):
+                ts[c] = ctx.rng.randint(0, 1000)
+        mode = "wide"
     return reps, n, tv, ts, mode
 
 
@@ -62,6 +71,8 @@ def run(ctx):
     for _ in range(ctx.n(500, 8000)):
         reps, n, tv, ts, mode = gen_table(ctx)
         comb = ctx.rng.choice(COMBS)
+        if mode == "wide" and ctx.rng.random() < 0.7:
+            comb = "fisher"
         kinds = [ctx.rng.choice(["np", "float", "int", "f32", "i64"]) for _ in range(n)]
         if ctx.rng.random() < 0.3:
             kinds = [ctx.rng.choice(["f32", "int", "i64"])] * n      # a homogeneous non-float64 matrix
@@ -91,12 +102,33 @@ def run(ctx):
                 name = cname
                 ps_exact = row_pvals_exact(D, False)[-1]
                 ge, amb = npc_exact(ps_exact, D, name, False)
-                if not (ge - amb <= k <= ge):
+                under = None
+                if mode == "wide" and comb == "fisher":
+                    # np.prod underflows: every row whose exact product is below 2^-1080 is 0.0 in doubles and ties with an
+                    # observed product that is 0.0 too (statistic +inf on both sides); products in [2^-1080, 2^-1000) are undecided
+                    prods = []
+                    for rowp in row_pvals_exact(D, False):
+                        v = Fr(1)
+                        for t in rowp:
+                            v *= t
+                        prods.append(v)
+                    lo_t, hi_t = Fr(1, 2**1080), Fr(1, 2**1000)
+                    if prods[-1] < lo_t:
+                        under = (sum(1 for v in prods if v < lo_t), sum(1 for v in prods if v < hi_t))
+                    elif prods[-1] < hi_t:
+                        ctx.count("skipped-subnormal-product"); continue
+                    ctx.count("fisher-product-underflow" if under else "wide-no-underflow")
+                if under is not None:
+                    if not (under[0] <= k <= under[1]):
+                        bad = {"issue": "Fisher product underflows to 0 for the observed row: every row whose product is 0 too ties with it (+inf >= +inf), "
+                                        "so the numerator must lie in the bracket; in particular the observed row counts itself",
+                               "returned": float(p), "numerator": k, "bracket": list(under)}
+                elif not (ge - amb <= k <= ge):
                     bad = {"issue": "global p-value is not the rank p-value of the observed row", "returned": float(p),
                            "numerator": k, "exact_count": ge, "ambiguous_ties": amb}
                 elif amb:
                     ctx.bracketed += 1
-                else:
+                elif under is None:
                     ops.append(f"simnpc|{name}|{rats(ts)}|{rows(tv)}"); meta.append(("simnpc", det, k, [float(rps[c]) for c in range(n)]))
             else:  # liptak: double-precision oracle on single-quotient p-values
                 from scipy.stats import norm
@@ -114,6 +146,8 @@ def run(ctx):
     # ------------------------------------------------------------------ npc directly
     for _ in range(ctx.n(500, 8000)):
         reps, n, tv, ts, mode = gen_table(ctx)
+        while mode == "wide":        # underflowing products are exercised through sim_npc above
+            reps, n, tv, ts, mode = gen_table(ctx)
         D = tv + [ts]; B = len(D)
         plus1 = ctx.rng.random() < 0.5
         c = 1 if plus1 else 0
@@ -144,7 +178,7 @@ def run(ctx):
     # ------------------------------------------------------------------ exact validity by rotation
     for _ in range(ctx.n(40, 400)):
         reps, n, tv, ts, mode = gen_table(ctx)
-        if reps > 10:
+        if reps > 10 or mode == "wide":
             continue
         D = tv + [ts]; B = len(D)
         comb = ctx.rng.choice(["tippett", "fisher"])
